@@ -270,6 +270,11 @@ def campaign(ctx, quick=True):
                 cutk, expect = k_close + 5, ["ret=0 err=0 data=" + hexd(wc)]
             elif cat0 == "present" or j["session"] == "overwrite-loudest":
                 cutk, expect = k_close + 3, ["ret=1 err=0"]
+            elif cat0 == "truth":
+                # values AND positions: the PEAK chunk the closed file must hold, as bytes of the dump
+                e = "<" if L.CONTAINERS[cont][1] == "riff-le" else ">"
+                chunk = b"PEAK" + struct.pack(e + "III", 8 + 8 * ch, 1, L.TIMESTAMP) + b"".join(struct.pack(e + "II", v, p_) for (v, p_) in want)
+                cutk, expect = k_close + 1, [chunk.hex()]
             else:
                 cutk, expect = k_close + 3, ["ret=1 err=0 data=" + hexd(wc)]
             f_ = L.Finding("truth", name, "; ".join(t for _, t in probs[:4]), "\n".join(sl[:cutk + 1]) + "\n", cat="foreign-" + cat0)
